@@ -97,6 +97,12 @@ def gen(tier, rng):
             buf = dirty(p.sig)
             out.append(Case("pack_sig", cp, [buf, c, flat(z), flat(h)], ["in_domain", "sig", "hint-" + kind], aux=(c, z, h, None)))
             out.append(Case("pack_sig", cp, [buf, 0, flat(z), flat(h)], ["in_domain", "sig", "hint-" + kind, "no-challenge"], aux=(bytes(buf[:p.ct]), z, h, None)))
+            if kind in ("random", "oneeach"):
+                # caller buffers longer than SIGNBYTES (the signer's own work buffer may be; the API says 'at least'): the encoding
+                # occupies the first SIGNBYTES bytes, the excess is untouched
+                for extra_len in (1, 64):
+                    lb = dirty(p.sig + extra_len)
+                    out.append(Case("pack_sig", cp, [lb, c, flat(z), flat(h)], ["in_domain", "sig", "hint-" + kind, "over-long-buffer"], aux=(c, z, h, None)))
             enc = c + b"".join(bitpack([p.g1 - x for x in zi], p.zbits) for zi in z) + hint_pack(h, p.omega)
             zero_h = [0] * (256 * p.K)
             out.append(Case("unpack_sig", cp, [enc, zero_h], ["in_domain", "sig", "hint-" + kind], aux="canonical"))
